@@ -22,10 +22,8 @@ RULE = ('random trees mixing .py / .pyc / .pyo (protected by a sibling .py '
         'Non-trivial = tree has >=1 orphan and >=1 protected look-alike; '
         'distinct by (tree, options).')
 ASSUMPTIONS = ['model computed by an independent walk of the real tree',
-               'leniency: a bare ".pyc"/".pyo" name and orphans in '
-               'directories the discovery walk would skip (non-identifier, '
-               '.git, node_modules, behind a symlink) may or may not be '
-               'deleted']
+               'leniency: a bare ".pyc"/".pyo" name and orphans behind a '
+               'symbolic link may or may not be deleted']
 FLOORS = {'runs': 400, 'orphans_must': 600, 'protected_checked': 2000,
           'keep_runs': 100, 'audit_events': 500, 'lookalikes_checked': 800,
           'symlinked_cache_dirs': 40}
@@ -166,9 +164,12 @@ def model(root, search_dirs, ignore_dir):
             if e in ign or e == '__pycache__':
                 continue
             p = os.path.join(d, e)
-            ok = bool(trees.IDENT.match(e)) and \
-                e not in trees.DISCOVERY_IGNORED and not os.path.islink(p)
-            walk(p, strict and ok)
+            # "every such orphan": the statement excludes __pycache__ and
+            # ignored directories only, so directories that test discovery
+            # would not enter (names that are no identifiers, node_modules)
+            # are cleaned as well; what lies behind a symbolic link stays a
+            # "may"
+            walk(p, strict and not os.path.islink(p))
 
     for sd in search_dirs:
         walk(sd, True)
